@@ -688,9 +688,72 @@ theorem C16_isDeclLike_is_decl (a : RAttr)
 theorem C16_isDeclLike_fixed (a : RAttr) : isDeclLike TbCfg.fixed a = isDecl a.name :=
   isDeclLike_eq TbCfg.fixed a (Or.inl rfl)
 
-/-! ### 3b. tokenizer: the duplicate-attribute step -/
+/-! ### 3b. tokenizer: qualified names, the duplicate-attribute step -/
 
-theorem mem_pushAttr (attrs : List RAttr) (t x : RAttr) : x ∈ pushAttr attrs t ↔ x = t ∨ x ∈ attrs := by
+/-- `process_qname` splits a name iff it contains exactly one colon, neither first nor last -/
+theorem C16_splitQName_split (p l : Str) (hp : p ≠ []) (hpc : ':' ∉ p) (hl : l ≠ []) (hlc : ':' ∉ l) :
+    splitQName (p ++ ':' :: l) = ⟨some p, l⟩ := by
+  unfold splitQName
+  have hlen : ¬ utf8Len (p ++ ':' :: l) < 3 := by
+    have := utf8Len_ge (p ++ ':' :: l)
+    have h1 : 0 < p.length := by cases p <;> simp_all
+    have h2 : 0 < l.length := by cases l <;> simp_all
+    simp at this; omega
+  simp only [hlen, ↓reduceIte]
+  match p, hp, hpc with
+  | c :: p', _, hpc =>
+    have hc : c ≠ ':' := by intro e; subst e; simp at hpc
+    have hr : ':' ∉ p' := by intro e; exact hpc (by simp [e])
+    simp only [List.cons_append, qnameRun, hc, ↓reduceIte]
+    rw [inName_app 1 p' l hr hl, afterColon_noColon _ _ hlc]
+    simp only []
+    have e1 : (c :: (p' ++ ':' :: l)).take (1 + p'.length) = c :: p' := by
+      rw [Nat.add_comm]; simp only [List.take_succ_cons]; rw [take_app]
+    have e2 : (c :: (p' ++ ':' :: l)).drop (1 + p'.length + 1) = l := by
+      have : 1 + p'.length + 1 = (p'.length + 1) + 1 := by omega
+      rw [this]; simp only [List.drop_succ_cons]; rw [drop_app]
+    rw [e1, e2]
+
+theorem C16_splitQName_some (raw p l : Str) (h : splitQName raw = ⟨some p, l⟩) :
+    raw = p ++ ':' :: l ∧ p ≠ [] ∧ ':' ∉ p ∧ l ≠ [] ∧ ':' ∉ l := by
+  unfold splitQName at h
+  split at h
+  · simp at h
+  · rename_i col hcol
+    split at hcol
+    · simp at hcol
+    · match raw, hcol with
+      | [], hcol => simp [qnameRun] at hcol
+      | c :: rest, hcol =>
+        simp only [qnameRun] at hcol
+        split at hcol
+        · simp at hcol
+        · rename_i hc
+          obtain ⟨pre, post, rfl, h1, h2, h3, h4⟩ := inName_some 1 col rest hcol
+          simp only [RName.mk.injEq, Option.some.injEq] at h
+          obtain ⟨hp, hl⟩ := h
+          subst h4
+          have e1 : (c :: (pre ++ ':' :: post)).take (1 + pre.length) = c :: pre := by
+            rw [Nat.add_comm]; simp only [List.take_succ_cons]; rw [take_app]
+          have e2 : (c :: (pre ++ ':' :: post)).drop (1 + pre.length + 1) = post := by
+            have : 1 + pre.length + 1 = (pre.length + 1) + 1 := by omega
+            rw [this]; simp only [List.drop_succ_cons]; rw [drop_app]
+          rw [e1] at hp; rw [e2] at hl
+          subst hp; subst hl
+          exact ⟨by simp, by simp, by simp [h1, Ne.symm hc], h2, h3⟩
+
+theorem C16_splitQName_none (raw : Str) (h : (splitQName raw).pfx = none) : splitQName raw = ⟨none, raw⟩ := by
+  unfold splitQName at h ⊢
+  split
+  · rfl
+  · rename_i col hcol; simp [hcol] at h
+
+/-- a name the tokenizer does not split keeps its raw text as local part (`:a`, `a:`, `a:b:c`, …) -/
+-- (see `C16_splitQName_none`)
+
+
+theorem mem_pushAttr (cfg : TokCfg) (attrs : List RAttr) (t x : RAttr) :
+    x ∈ pushAttr cfg attrs t ↔ x = t ∨ x ∈ attrs := by
   unfold pushAttr; split <;> simp [or_comm]
 
 theorem finishAttribute_mono (cfg : TokCfg) (acc : List RAttr) (a : RawAttr) (x : RAttr) (hx : x ∈ acc) :
@@ -700,7 +763,7 @@ theorem finishAttribute_mono (cfg : TokCfg) (acc : List RAttr) (a : RawAttr) (x 
   · exact hx
   · split
     · exact hx
-    · exact (mem_pushAttr _ _ _).mpr (Or.inr hx)
+    · exact (mem_pushAttr _ _ _ _).mpr (Or.inr hx)
 
 theorem tagAttrs_mono (cfg : TokCfg) (l : List RawAttr) (acc : List RAttr) (x : RAttr) (hx : x ∈ acc) :
     x ∈ l.foldl (finishAttribute cfg) acc := by
@@ -722,7 +785,7 @@ theorem foldl_origin (cfg : TokCfg) (l : List RawAttr) (acc : List RAttr) (pre :
       · obtain ⟨b, hb, e⟩ := hacc y hy; exact ⟨b, by simp [hb], e⟩
       · split at hy
         · obtain ⟨b, hb, e⟩ := hacc y hy; exact ⟨b, by simp [hb], e⟩
-        · rcases (mem_pushAttr _ _ _).mp hy with rfl | hy
+        · rcases (mem_pushAttr _ _ _ _).mp hy with rfl | hy
           · exact ⟨a, by simp, rfl⟩
           · obtain ⟨b, hb, e⟩ := hacc y hy; exact ⟨b, by simp [hb], e⟩) hx
     simpa using this
@@ -753,7 +816,7 @@ theorem C16_tok_dropped_only_if_fixed (l1 : List RawAttr) (a : RawAttr) (l2 : Li
     generalize List.foldl (finishAttribute _) [] l1 = acc at hdup ⊢
     unfold finishAttribute
     simp only [hne, ↓reduceIte, hdup, Bool.false_eq_true]
-    exact (mem_pushAttr _ _ _).mpr (Or.inl rfl)
+    exact (mem_pushAttr _ _ _ _).mpr (Or.inl rfl)
 
 /-- **C16 (attributes, tokenizer)**, `_partial` for the pinned tree: the same conclusion provided no
 earlier attribute's *local part* equals the new attribute's raw name unless the whole names agree
@@ -777,7 +840,7 @@ theorem C16_tok_dropped_only_if_partial (l1 : List RawAttr) (a : RawAttr) (l2 : 
     generalize List.foldl (finishAttribute _) [] l1 = acc at hdup ⊢
     unfold finishAttribute
     simp only [hne, ↓reduceIte, hdup, Bool.false_eq_true]
-    exact (mem_pushAttr _ _ _).mpr (Or.inl rfl)
+    exact (mem_pushAttr _ _ _ _).mpr (Or.inl rfl)
 
 /-- with the fix, no two attributes of the emitted tag have the same qualified name (so the tree
 builder never sees a prefix declared twice) -/
